@@ -28,7 +28,7 @@ time are not disturbed; everything here is independent of any property).
                        untranslatable.
   try / except         `try: BODY except E1: H1 except E2: H2` (no `else`, no `finally`, no `as`): `catch` maps an
                        exception class name to the Lean PATTERN of the failing value (`{"AttributeError": ".error
-                       .attr"}`); every failing operation of BODY gets one match arm per handler, the handler runs in
+                       .attr"}`; `None` = a class of failure that M cannot produce: named in an `except`, no arm); every failing operation of BODY gets one match arm per handler, the handler runs in
                        the variable bindings and the world of the point of failure (a failed operation has no effect),
                        then the statements after the `try`; a failure no handler names is re-raised (`exhaustive`:
                        sets of class names that cover every failure - then there is no re-raising arm).
@@ -464,6 +464,8 @@ class Translator2S(Translator2):
                 if name not in self.r.catch:
                     raise Untranslatable("except %s" % ast.unparse(c))
                 caught.add(name)
+                if self.r.catch[name] is None:      # a class of failure M cannot produce: no arm (declared by the rules)
+                    continue
                 handlers.append((self.r.catch[name],
                                  lambda snap, i, h=h: self.block(list(h.body) + rest, snap, i, ctx)))
         tctx = _Ctx(exit_=ctx.exit, end=lambda s, i: self.block(rest, s, i, ctx), brk=ctx.brk)
